@@ -75,12 +75,18 @@ def main():
         alarms = {}
         checks = json.load(open(os.path.join(VERIF, "MANIFEST.json")))["checks"]
         env = dict(os.environ, VERIF_REPO=wt, PMLINT_EVIDENCE_DIR=os.path.join(wt, "_out", "evidence"))
-        for c in checks:
-            p = c["property_id"]
-            for tier in ("quick", "thorough"):
-                r, o = sh([PY, "-m", "pmlint", "check", p, "--tier", tier], cwd=VERIF, env=env)
-                if r != 0:
-                    alarms.setdefault(p, {})[tier] = {"exit": r, "lines": [ln[:400] for ln in o.split("\n") if ln.startswith("pymoto/") or ln.startswith("ANALYSIS")][:4]}
+        # one pass over every rule (`pmlint sweep` gives the verdict `check <prop> --tier thorough` would give, per property)
+        r, o = sh([PY, "-m", "pmlint", "sweep"], cwd=VERIF, env=env)
+        cur = None
+        for ln in o.split("\n"):
+            if ln.startswith("PROP "):
+                _, cur, ex = ln.split()
+                if ex != "exit=0":
+                    alarms[cur] = {"thorough": {"exit": int(ex.split("=")[1]), "lines": []}}
+            elif ln.startswith("  ") and cur in alarms and len(alarms[cur]["thorough"]["lines"]) < 4:
+                alarms[cur]["thorough"]["lines"].append(ln.strip()[:400])
+        if "PROP C20" not in o:
+            alarms["ENGINE"] = {"thorough": {"exit": r, "lines": o.strip().split("\n")[-3:]}}
         meta["alarms_first"] = alarms
         out = os.path.join(VERIF, "refactorings", rid)
         os.makedirs(out, exist_ok=True)
